@@ -14,8 +14,9 @@ CONSTANTS
     AdoptNewFs = TRUE
     RestoreOnInit = TRUE
     UnknownUnmountOK_G = TRUE
+    OverwriteRecord = TRUE
 SPECIFICATION TraceSpec
 CONSTRAINT HighWater
-INVARIANTS RecordEqualsServing NoSecondMount MapMatchesLive NoPanic
+INVARIANTS RecordedLabelsServed RecordEqualsServing NoSecondMount MapMatchesLive NoPanic
 POSTCONDITION TraceAccepted
 CHECK_DEADLOCK FALSE
